@@ -4,6 +4,7 @@ pub mod c03;
 pub mod c04;
 pub mod c05;
 pub mod c06;
+pub mod c07;
 pub mod c08;
 pub mod c09;
 pub mod c10;
@@ -27,6 +28,7 @@ pub fn run(prop: &str, tier: Tier) -> i32 {
         "C04" => c04::run(tier),
         "C05" => c05::run(tier),
         "C06" => c06::run(tier),
+        "C07" => c07::run(tier),
         "C08" => c08::run(tier),
         "C09" => c09::run(tier),
         "C10" => c10::run(tier),
@@ -53,6 +55,7 @@ pub fn replay(prop: &str, case: &Value) -> Vec<String> {
         "C04" => c04::replay(case),
         "C05" => c05::replay(case),
         "C06" => c06::replay(case),
+        "C07" => c07::replay(case),
         "C08" => c08::replay("C08", case),
         "C09" => c09::replay(case),
         "C10" => c10::replay(case),
